@@ -3,8 +3,8 @@ TECH = 'deterministic simulation with fault injection'
 
 claim('C16', 'fault_enumeration', TECH + ': seeded worlds x enumerated solver-fault points (time-limit/iteration-limit/singular/line-search '
       'at every solve index, backup solver, trials limit) under a virtual clock',
-      'Every solve index of each generated world is failed through the real failure paths of NewtonSolver (virtual clock past TIME_LIMIT, '
-      'MAXITER/BT_MAXITER exhaustion, MatrixRankWarning from the linear solve) with and without convergence_error and a backup solver; '
+      'Every solve index of each generated world (30 %: a world from the generator of another property) is failed through the real failure paths of NewtonSolver (virtual clock past TIME_LIMIT, '
+      'MAXITER/BT_MAXITER exhaustion, an exactly singular Jacobian) with and without convergence_error and a backup solver (Newton or scipy fsolve, run for real); '
       'termination is bounded by step caps, tables are checked for well-formedness and the reported prefix is compared with the fault-free run. '
       'Exhaustive over fault points per world, sampled over worlds.',
       'Trusted: the taps (monkeypatched module globals), numpy/pandas comparison, the generator producing well-formed worlds; worlds are small (<=9 hydraulic steps).',
@@ -46,7 +46,7 @@ claim('C09', 'exploration', TECH + ': reference BFS reachability compared with t
       INV_NOTE, 'DESIGN.md section 4 (C09)')
 
 claim('C10', 'fault_enumeration', TECH + ': every pause point on the hydraulic grid x persistence {none,pickle,deepcopy} per seeded world, restart = new simulator on durable state only',
-      'For each generated world the uninterrupted run is the reference; every grid pause time is executed with each persistence mode (plus seeded multi-pause '
+      'For each generated world (20 %: a world from the generator of C05/C06/C08/C09) the uninterrupted run is the reference; every grid pause time incl. time 0 is executed with each persistence mode (plus seeded multi-pause '
       'histories): run to the pause, persist the model, continue with a new WNTRSimulator. The concatenated tables must have exactly the uninterrupted index '
       '(no earlier time revisited, checked inside the run too), equal statuses/settings and values within solver-tolerance slack.',
       'Trusted: taps, pickle/deepcopy of the standard library, comparison slack derived from the solver tolerance (DESIGN.md 3.4). Exhaustive over pause points per world, sampled over worlds (<= 24 steps).',
